@@ -791,6 +791,9 @@ func (n *netRun) convPayload(m *NetMsg, r *hx.Rng) (pl []byte, ok bool) {
 			// the commitment family is what the network path checks after the header has been accepted
 			kind = []string{"witness-nonce-size", "witness-nonce-size", "witness-commit-wrong", "witness-missing-commit", "witness-commit-two"}[r.Intn(5)]
 		}
+		if len(cp.blk.Txs) > 2 && r.Chance(0.3) {
+			kind = "empty-vout" // (several transactions fail the context-free checks, which run in parallel)
+		}
 		par := n.l.Nodes[cp.blk.H.Prev]
 		if par == nil || !n.m.MutateC05(par, cp.blk, kind, time.Now().Unix()) {
 			return cp.blk.Bytes(), true
